@@ -46,7 +46,6 @@ package storage
 //@   ensures [C03.entries_result_positions_from32] old(positionsFrom32(b.entries)) ==> positionsFrom32(result)
 //@   ensures [C03.entries_result_offsets_increasing] old(offsetsIncreasing(b.entries)) ==> offsetsIncreasing(result)
 //@   ensures [C03.entries_result_positions_increasing] old(positionsIncreasing(b.entries)) ==> positionsIncreasing(result)
-//@   ensures [C03.entries_result_positions_below] forall bound int64 :: old(positionsBelow(b.entries, bound)) ==> positionsBelow(result, bound)
 
 // ---- BuildSegment: segment = 32-byte header ++ batch bytes in order ++ 16-byte footer; index entries point at batch starts ----
 // Ghost sequences recorded from the execution (not definitions): batch k was written to the body at offsets
